@@ -1,7 +1,7 @@
 (* C15 -- Discovery datagrams are retransmitted within the SOAP-over-UDP time envelope.
    Property theorems only; each is closed by [exact] of a lemma proved elsewhere. *)
 From Coq Require Import List ZArith Lia.
-From SDC Require Import Wsd.Udp Wsd.Udp_Proofs Wsd.Gen_Params.
+From SDC Require Import Wsd.Udp Wsd.Udp_Proofs Wsd.Gen_Params Wsd.Gen_Kinds Wsd.Kinds Wsd.Kinds_Proofs.
 Import ListNotations.
 Open Scope Z_scope.
 
@@ -35,16 +35,57 @@ Print Assumptions C15_envelope_multicast.
 Lemma cap_pos : (0 < known_ids_cap)%nat.
 Proof. unfold known_ids_cap. lia. Qed.
 
+(* WHICH parameter set (and which destination) a message kind uses is part of the property: the table traced
+   from the real WSDiscovery object (Gen_Kinds.v, regenerated on every run) is the demanded one -- Hello, Bye,
+   Probe, Resolve: multicast group + multicast set; ProbeMatches, ResolveMatches: requester + unicast set *)
+Theorem C15_kind_parameter_set : forall k,
+  impl_kind_pset k = (if is_multicast_kind k then PMulticast else PUnicast) /\
+  impl_kind_dest k = (if is_multicast_kind k then DGroup else DRequester).
+Proof. exact (fun k => conj (kind_pset_ok k) (kind_dest_ok k)). Qed.
+Print Assumptions C15_kind_parameter_set.
+
+(* every message kind, every outcome of the two draws: exactly 1 + repeat queue entries, repeat being the one of
+   the set that belongs to the kind, inside the envelope *)
+Theorem C15_envelope_kind : forall k d0 g,
+  let p := if is_multicast_kind k then multicast_params else unicast_params in
+  0 <= d0 <= init_ms p -> min_ms p <= g < max_ms p ->
+  kind_params k = p /\ envelope (kind_params k) d0 g /\ length (kind_schedule_us k d0 g) = S (repeat p).
+Proof.
+  intros k d0 g. cbv zeta. rewrite <- spec_params_cases. intros Hd Hg.
+  split; [exact (kind_params_ok k)|exact (kind_envelope k d0 g Hd Hg)].
+Qed.
+Print Assumptions C15_envelope_kind.
+
 (* an own message id, registered before the first transmission, is dropped when it loops back, as
-   long as fewer than [cap] further ids were remembered in between (the bound is part of the claim) *)
+   long as fewer than [cap] further ids were remembered in between (the bound is part of the claim).
+   [es] may contain any public operation of WSDiscovery (EvOp: publish, clear_service, clear_local_services,
+   clear_remote_services, search, get_found, stop) and any other traffic; it contains no restart: stop() joins the
+   send thread, so no own transmission is in flight when start() creates the next (empty) memory *)
 Theorem C15_own_ids_ignored : forall k id es,
+  no_restart es = true ->
   (count_inserts known_ids_cap (remember known_ids_cap k id) es < known_ids_cap)%nat ->
   snd (dstep known_ids_cap (fst (drun known_ids_cap (remember known_ids_cap k id) es)) (EvIn id)) = false.
 Proof. exact (own_id_ignored known_ids_cap cap_pos). Qed.
 Print Assumptions C15_own_ids_ignored.
+
+(* no public operation touches the id memory or hands a message to the handler; they do not count as insertions *)
+Theorem C15_api_ops_keep_memory : forall k o es,
+  dstep known_ids_cap k (EvOp o) = (k, false) /\
+  count_inserts known_ids_cap k (EvOp o :: es) = count_inserts known_ids_cap k es /\
+  fst (drun known_ids_cap k (EvOp o :: es)) = fst (drun known_ids_cap k es).
+Proof. exact (fun k o es => conj eq_refl (conj eq_refl (drun_fst known_ids_cap k (EvOp o) es))). Qed.
+Print Assumptions C15_api_ops_keep_memory.
 
 Example C15_envelope_nonvacuous :
   wf multicast_params /\ 0 <= 499 <= init_ms multicast_params /\
   min_ms multicast_params <= 249 < max_ms multicast_params /\
   times (schedule_ms multicast_params 499 249) = [499; 748; 1246; 1746; 2246].
 Proof. repeat split; try (vm_compute; congruence). Qed.
+
+(* a clear_remote_services() between the registration of an own id and its loop back changes nothing *)
+Example C15_own_ids_nonvacuous :
+  snd (dstep known_ids_cap
+        (fst (drun known_ids_cap (remember known_ids_cap [] (-1)) [EvOp OpClearRemote; EvIn 7; EvOut (-2); EvIn (-1)]))
+        (EvIn (-1))) = false /\
+  kind_schedule_us KResolveMatches 499 249 = [(499000, 1); (748000, 2); (1246000, 3)].
+Proof. split; vm_compute; reflexivity. Qed.
